@@ -168,6 +168,22 @@ fn kinds() -> Vec<Kind> {
 
 const MARK: u16 = 0xbeef;
 
+/// (device, flash words, position of the first item) for the placements on small devices
+const DEV_BASES: [(&str, i64, i64); 12] = [
+    ("ATmega8", 4096, 0),
+    ("ATmega8", 4096, 0x7f0),
+    ("ATmega8", 4096, 0xff0 - 8),
+    ("ATtiny13", 512, 0),
+    ("ATtiny13", 512, 250),
+    ("ATtiny13", 512, 500),
+    ("ATtiny2313", 1024, 0),
+    ("ATtiny2313", 1024, 510),
+    ("ATtiny2313", 1024, 1010),
+    ("ATtiny45", 2048, 0),
+    ("ATtiny45", 2048, 1020),
+    ("ATtiny45", 2048, 2030),
+];
+
 struct Built {
     src: String,
     instr_addr: i64,
@@ -183,16 +199,15 @@ fn make(k: &Kind, form: Form, base: usize, d: i64, seq: &[FItem], mode: u64) -> 
         0 => {}
         // the reduced-core device: lds/sts are one word there in both passes
         4 => p.src.push_str(".device ATtiny20\n"),
-        // a device with exactly 4 K words: a 12-bit displacement could wrap around the flash there,
-        // but the statement says an unreachable target is an error, never a wrapped offset
-        5 => p.src.push_str(".device ATmega8\n"),
-        6 => {
-            p.src.push_str(".device ATmega8\n");
-            p.org(0x7f0);
-        }
-        7 => {
-            p.src.push_str(".device ATmega8\n");
-            p.org(0xff0 - 8);
+        // devices whose flash is within reach of a 12-bit displacement: it could wrap around the
+        // flash there, but the statement says an unreachable target is an error, never a wrapped
+        // offset - and a reachable one gets the displacement the ISA defines, not a wrapped one
+        b if b >= 5 => {
+            let (dev, _, org) = DEV_BASES[b - 5];
+            p.src.push_str(&format!(".device {}\n", dev));
+            if org > 0 {
+                p.org(org);
+            }
         }
         1 => {
             for _ in 0..5 {
@@ -294,9 +309,17 @@ pub fn run(tier: Tier) -> i32 {
             }
             // rjmp/rcall on the 4 K-word device, targets inside its flash
             if k.hi == 2047 {
-                for base in 5..8usize {
-                    for d in (-2056i64..=-2040).chain(-4..=4).chain(2040..=2056).chain([-4095, -4090, -3000, 3000, 4000, 4080]) {
-                        work.push((ki, f, base, d));
+                for (bi, (_, flash, _)) in DEV_BASES.iter().enumerate() {
+                    let h = flash / 2;
+                    let mut dd: Vec<i64> = (-2056i64..=-2040).chain(-4..=4).chain(2040..=2056).chain([-4095, -4090, -3000, 3000, 4000, 4080]).collect();
+                    // around half the flash and around the whole flash, in both directions, and
+                    // targets far outside the device
+                    dd.extend((h - 4..=h + 4).chain(-h - 4..=-h + 4).chain(flash - 12..=*flash + 2).chain(-flash - 2..=-flash + 12));
+                    dd.extend([100, -100, 300, -300, 700, -700, 1500, -1500, 4999, 70000, 1_000_000, -5000]);
+                    dd.sort_unstable();
+                    dd.dedup();
+                    for d in dd {
+                        work.push((ki, f, 5 + bi, d));
                     }
                 }
             }
@@ -328,7 +351,7 @@ pub fn run(tier: Tier) -> i32 {
             let seq: &Vec<FItem> = if *base == 4 {
                 &seqs_reduced[si % seqs_reduced.len()]
             } else if *base >= 5 {
-                // ATmega8 has no jmp: drop that item from the filler
+                // these devices have no jmp: drop that item from the filler
                 no_jmp = seqs[si].iter().cloned().filter(|i| *i != FItem::Jmp).collect();
                 &no_jmp
             } else {
@@ -340,8 +363,12 @@ pub fn run(tier: Tier) -> i32 {
             };
             // on the 4 K-word device everything that is emitted must lie inside its flash
             if *base >= 5 {
+                let flash = DEV_BASES[*base - 5].1;
                 let emitted_end = if b.marker { b.instr_addr.max(b.target_addr) + 2 } else { b.instr_addr + 3 };
-                if emitted_end > 4096 || b.target_addr < 0 || b.target_addr >= 4096 {
+                let in_range = *d >= k.lo && *d <= k.hi;
+                // a reachable target outside the device is not pinned; an unreachable one must be
+                // refused wherever it lies
+                if emitted_end > flash || (in_range && (b.target_addr < 0 || b.target_addr >= flash)) {
                     continue;
                 }
             }
@@ -442,6 +469,93 @@ pub fn run(tier: Tier) -> i32 {
         }
         used_seqs.lock().unwrap().extend(local_seqs);
     });
+    // the same branch line assembled at several addresses (a macro body expanded more than once,
+    // before and behind the target): each copy must reach the target from where it stands
+    let n_reuse = AtomicU64::new(0);
+    {
+        let mut rw: Vec<(usize, i64, i64, i64, bool)> = vec![]; // kind, gap1, gap2, gap3, with an argument
+        for ki in 0..kinds.len() {
+            for g1 in [0i64, 1, 5, 30, 58, 70] {
+                for g2 in [0i64, 3, 20, 60] {
+                    for g3 in [0i64, 2, 40, 61, 66] {
+                        for arg in [false, true] {
+                            rw.push((ki, g1, g2, g3, arg));
+                        }
+                    }
+                }
+            }
+        }
+        rw.par_iter().for_each(|(ki, g1, g2, g3, arg)| {
+            let k = &kinds[*ki];
+            let instr = |target: &str| match k.s {
+                Some(s) => format!("{} {}, {}", k.mnem, s, target),
+                None => format!("{} {}", k.mnem, target),
+            };
+            let mut p = Prog::new();
+            p.src.push_str(&format!(".macro jump_m\n{}\n.endm\n", instr(if *arg { "@0" } else { "target_l" })));
+            let call = if *arg { "jump_m target_l" } else { "jump_m" };
+            let nops = |p: &mut Prog, n: i64| {
+                for _ in 0..n {
+                    p.line("nop", 1);
+                }
+            };
+            let a1 = p.addr;
+            p.line(call, 1);
+            nops(&mut p, *g1);
+            let a2 = p.addr;
+            p.line(call, 1);
+            nops(&mut p, *g2);
+            let t = p.addr;
+            p.line(&format!("target_l: .dw {}", MARK), 1);
+            nops(&mut p, *g3);
+            let a3 = p.addr;
+            p.line(call, 1);
+            p.line("nop", 1);
+            let sites = [a1, a2, a3];
+            let ds: Vec<i64> = sites.iter().map(|a| t - a - 1).collect();
+            let all_fit = ds.iter().all(|d| *d >= k.lo && *d <= k.hi);
+            let o = sut::build_str(&p.src);
+            evals.fetch_add(1, Ordering::Relaxed);
+            n_reuse.fetch_add(1, Ordering::Relaxed);
+            let kindname = match k.s {
+                Some(_) => format!("{}-s", k.mnem),
+                None => k.mnem.to_string(),
+            };
+            let mut bad: Option<(String, String)> = None;
+            match &o {
+                Outcome::Ok(bu) => {
+                    if !all_fit {
+                        bad = Some((format!("C03/accepted-out-of-range/kind={}/form=SameLineTwice", kindname), format!("displacements {:?}: one does not fit {}'s field but the build succeeds", ds, k.mnem)));
+                    } else {
+                        for (a, d) in sites.iter().zip(ds.iter()) {
+                            let off = (*a * 2) as usize;
+                            let w = if bu.code.len() >= off + 2 { bu.code[off] as u16 | (bu.code[off + 1] as u16) << 8 } else { 0 };
+                            let mut ops = vec![];
+                            if let Some(sv) = k.s {
+                                ops.push(Opnd::Imm(sv));
+                            }
+                            ops.push(Opnd::Imm(*d));
+                            let want = isa::encode(Core::Full, k.mnem, &ops).map(|v| v[0]);
+                            if Some(w) != want {
+                                let dec = isa::decode(Core::Full, w, None);
+                                bad = Some((format!("C03/wrong-displacement/kind={}/form=SameLineTwice", kindname), format!("the copy at address {} must reach {} (displacement {}), but its word {:04x} decodes to {:?}", a, t, d, w, dec.map(|x| (x.mnem, x.ops)))));
+                                break;
+                            }
+                        }
+                    }
+                }
+                Outcome::Err(e) => {
+                    if all_fit {
+                        bad = Some((format!("C03/rejected-in-range/kind={}/form=SameLineTwice", kindname), format!("displacements {:?} all fit but the build fails: {}", ds, e)));
+                    }
+                }
+                Outcome::Panic { site, msg } => bad = Some((format!("C03/panic/kind={}/form=SameLineTwice", kindname), format!("panic at {}: {}", site, msg))),
+            }
+            if let Some((key, what)) = bad {
+                rep.violation(&key, || what, || json!({"kind": "build_str", "source": p.src, "branch_addresses": sites, "target_word_address": t, "expected": if all_fit { "ok, each copy with its own displacement" } else { "err (any text)" }, "observed": o.to_json()}));
+            }
+        });
+    }
     let used = used_seqs.lock().unwrap().len();
     rep.guard(n_ok.load(Ordering::Relaxed) > 1000 && n_err.load(Ordering::Relaxed) > 1000, "need both reachable and unreachable targets");
     rep.guard(used == seqs.len(), "not every filler sequence was used");
@@ -449,15 +563,17 @@ pub fn run(tier: Tier) -> i32 {
     for s in samples.into_inner().unwrap() {
         rep.sample(|| s);
     }
-    rep.assume("rjmp/rcall are also placed on a 4 K-word device (ATmega8): AVRASM lets a 12-bit displacement wrap around the flash there, but the statement says an unreachable target is an error, never a wrapped offset, so a wrapped encoding is a violation; targets outside the device's flash are not generated there");
+    rep.assume("rjmp/rcall are also placed on devices of 512, 1 K, 2 K and 4 K words: AVRASM lets a 12-bit displacement wrap around the flash of a 4 K-word device, but the statement says an unreachable target is an error, never a wrapped offset, and a reachable one gets the displacement target - PC - 1, so a wrapped encoding is a violation; reachable targets outside the device's flash are not generated there, unreachable ones are (they must be refused)");
     rep.assume("absolute numeric targets below 0 are not generated");
     let coverage = cov(json!({
         "evaluations": evals.load(Ordering::Relaxed),
         "distinct_nontrivial": distinct_cases.load(Ordering::Relaxed),
         "far_distances": "2^p + {-2..2}, p in 7,8,12,13,15,16,17,21,22, both signs",
-        "rule": "36 instruction kinds (18 named branches, brbs/brbc x 8 flags, rjmp, rcall) x 4 target forms (forward label, backward label, pc-relative, absolute) x 4 base placements (+ for branches the reduced-core device ATtiny20 with one-word lds/sts among the fillers) x every distance in the windows (branches -70..70; rjmp/rcall -2056..-2040,-8..8,2040..2056 quick / -2100..2100 thorough) x rotating filler sequences (all 1555 sequences of <=4 items over nop, jmp, .dw, odd .db, 3-byte .db, .org gap are used); distinct_nontrivial = distinct constructible (kind, form, base, distance) combinations",
+        "rule": "36 instruction kinds (18 named branches, brbs/brbc x 8 flags, rjmp, rcall) x 4 target forms (forward label, backward label, pc-relative, absolute) x 4 base placements (+ for branches the reduced-core device ATtiny20 with one-word lds/sts among the fillers) x every distance in the windows (branches -70..70; rjmp/rcall -2056..-2040,-8..8,2040..2056 quick / -2100..2100 thorough) x rotating filler sequences (all 1555 sequences of <=4 items over nop, jmp, .dw, odd .db, 3-byte .db, .org gap are used); rjmp/rcall at three positions on devices of 512/1K/2K/4K words with distances around half and all of the flash and far outside it; every kind as the body of a macro (with the target as argument or not) expanded at three addresses before and behind the target; distinct_nontrivial = distinct constructible (kind, form, base, distance) combinations",
         "exhaustive": true,
         "filler_sequences_used": used,
+        "same_line_at_three_addresses_programs": n_reuse.load(Ordering::Relaxed),
+        "small_device_placements": DEV_BASES.iter().map(|(d, f, o)| format!("{} ({} words) from {}", d, f, o)).collect::<Vec<_>>(),
         "outcomes": {"ok": n_ok.load(Ordering::Relaxed), "err": n_err.load(Ordering::Relaxed)},
         "caps_hit": [],
         "trusted_base": ["harness isa::decode / isa::canonical", "generator's own address bookkeeping (1- and 2-word items, padded .db, .org)"],
